@@ -753,7 +753,7 @@ func check(scen string, in In, cache parseCache) verdict {
 	if hp != nil {
 		return verdict{problem: hp}
 	}
-	return evaluate(scen, in, rows)
+	return evaluate(scen, in, rows, true)
 }
 
 // prepare does the per-row work (render + ParseDsc + model edges into the row); it does not depend on
@@ -770,8 +770,8 @@ func prepare(in In, cache parseCache) ([]*rowInfo, *harnessProblem) {
 	return rows, nil
 }
 
-// evaluate runs OrderDSCForBuild (twice) on the parsed sources in the order in.Perm for in.Arch and judges it.
-func evaluate(scen string, in In, rows []*rowInfo) verdict {
+// evaluate runs OrderDSCForBuild (a second time if twice) on the parsed sources in the order in.Perm for in.Arch and judges it.
+func evaluate(scen string, in In, rows []*rowInfo, twice bool) verdict {
 	arch := parsedArch[in.Arch]
 	ai := 0
 	for k, a := range archs {
@@ -793,7 +793,10 @@ func evaluate(scen string, in In, rows []*rowInfo) verdict {
 	cyc := cyclic(in.N, es)
 	res := verdict{edges: len(es), cyclic: cyc}
 	o1 := runOrder(input, arch)
-	o2 := runOrder(input, arch)
+	o2 := o1
+	if twice {
+		o2 = runOrder(input, arch)
+	}
 	inNames := func() string {
 		var x []string
 		for _, s := range in.Perm {
@@ -1174,7 +1177,7 @@ func explore(r *mc.Run, sc scen) {
 				for ai, a := range archSet {
 					for pi, pm := range perms {
 						in.Arch, in.Perm = a, pm
-						res := evaluate(name, in, rows)
+						res := evaluate(name, in, rows, pi == 0 || pi == len(perms)-1) // second run (determinism clause) for the first and the last input order
 						st.Evals++
 						st.Traces++
 						st.Transitions++
@@ -1212,7 +1215,7 @@ func Run(r *mc.Run) {
 	r.Assume = []string{
 		"edge set from the model: per relation the first non-substvar alternative whose architecture list admits the build architecture (concrete architectures amd64/i386, so admission is equality); an edge Sj→Si when that name is a binary of another source Sj; version constraints do not remove an edge",
 		"self-dependencies, duplicate source names and a binary built by two sources are outside the alphabet",
-		"ParseDsc results are memoised per rendered .dsc text inside a shard (same text, same parse — determinism of parsing is C18's business); OrderDSCForBuild is executed twice for every case",
+		"ParseDsc results are memoised per rendered .dsc text inside a shard (same text, same parse — determinism of parsing is C18's business); OrderDSCForBuild is executed for every case, and a second time (same-outcome clause) for every model × architecture on the first and the last input order; Replay always runs it twice",
 		"folded build-dependency fields and a folded Binary field are counted as 'ordinary' .dsc (RFC822 continuation lines, as dpkg-source writes long fields)",
 	}
 	selfCheck(r)
